@@ -347,6 +347,10 @@ def run_case(case, ctx):
         if r < 0.26:
             fills = [(Y if len(Y) == 0 or k_ % 2 else np.ascontiguousarray(X[rng.integers(0, n, size=len(Y))] + rng.normal(0, 0.7, size=(len(Y), d))), t_, r_)
                      for k_, (Y, t_, r_) in enumerate(fills)]
+        # some batches arrive in single precision (the oracle works with the exact values they hold)
+        f32 = {k_ for k_ in range(len(fills)) if rng.random() < 0.15 and fills[k_][0].size and float(np.abs(fills[k_][0]).max()) < 1e30}
+        fills = [((Y.astype(np.float32).astype(float), t_, r_) if k_ in f32 else (Y, t_, r_)) for k_, (Y, t_, r_) in enumerate(fills)]
+    f32 = locals().get("f32") or set(case.get("literal", {}).get("float32_fills", []))
     bdt = locals().get("bdt") or case.get("literal", {}).get("build_dtype")
     ctx.count("family:" + fam)
     if bdt:
@@ -384,17 +388,19 @@ def run_case(case, ctx):
     bystander = "literal" not in case and (case.get("seed") or [0])[-1] % 3 == 0
     if bystander:
         ctx.count("cases_with_a_second_partitioner_alive")
-    for (Y, tid, reset) in fills:
+    for fi_, (Y, tid, reset) in enumerate(fills):
+        if fi_ in f32:
+            ctx.count("fills_in_single_precision")
         if bystander:
             # another partitioner object used in between (its own data, the same ids): the two must not share anything
             other = KDQTreePartitioner(count_ubound=max(1, cub // 2), cutpoint_proportion_lbound=prop)
             other.build(X[::-1] * 3.0 + 1.0)
             other.fill(X * 0.5, tid, reset=True)
         applied.append({"data": Y.tolist() if Y.size <= 300 else "omitted", "id": tid, "reset": reset})
-        fbase = dict(base, fills=applied)
+        fbase = dict(base, fills=applied, float32_fills=sorted(k_ for k_ in f32 if k_ <= fi_))
         evals0 = getattr(P, "_verif_evals", 0)
         try:
-            P.fill(Y.copy(), tid, reset=reset)
+            P.fill(Y.astype(np.float32) if fi_ in f32 else Y.copy(), tid, reset=reset)
         except PostBroken:
             kind, msg = P._verif_last
             ctx.violation("C08/fill/" + kind, "after fill(id=%r, reset=%r): %s" % (tid, reset, msg), **fbase)
@@ -443,6 +449,28 @@ def run_case(case, ctx):
         if not check_plot(df, P, pairs, expected, ref_id, tid, ctx, fbase):
             return
         ctx.count("plot_frames_checked")
+        # the same listing cut off at a depth: the nodes down to that depth, each row exactly as in the full listing
+        deepest = max(int(v) for v in df["depth"])
+        if deepest >= 1:
+            md = 1 + (nfill + n) % deepest
+            cut = P.to_plotly_dataframe(tree_id1=ref_id, tree_id2=tid, max_depth=md)
+            full = {int(r["idx"]): r for _, r in df.iterrows()}
+            want = {i_ for i_, r in full.items() if int(r["depth"]) <= md}
+            got_ids = [int(v) for v in cut["idx"]]
+            ctx.count("depth_limited_plot_frames_checked")
+            if len(got_ids) != len(set(got_ids)) or set(got_ids) != want:
+                ctx.violation("C08/plot/max_depth_rows", "max_depth=%d lists %d rows, the tree has %d nodes down to that depth" % (md, len(got_ids), len(want)), **fbase)
+                return
+            for _, r in cut.iterrows():
+                f_ = full[int(r["idx"])]
+                for col in ("depth", "cell_count", "count_diff", "kss", "parent_idx"):
+                    a_, b_ = r[col], f_[col]
+                    same_ = (a_ is None and b_ is None) or (isinstance(a_, float) and isinstance(b_, float) and math.isnan(a_) and math.isnan(b_)) or \
+                        (a_ is not None and b_ is not None and close(float(a_), float(b_), rtol=1e-9, atol=1e-12))
+                    if not same_:
+                        ctx.violation("C08/plot/max_depth_values", "max_depth=%d: column %s of a node at depth %d is %r, in the full listing %r" % (
+                            md, col, int(r["depth"]), a_, b_), **fbase)
+                        return
     ctx.nontrivial = len(mleaves) >= 4 and nfill >= 2
     ctx.sample = {"family": fam, "shape": [n, d], "count_ubound": cub, "cutpoint_proportion_lbound": prop, "leaves": len(mleaves),
                   "fills": [(len(Y), tid, reset) for (Y, tid, reset) in fills]}
